@@ -130,7 +130,9 @@ def handle (op : String) (req : Json) : Except String Json := do
   | "spec.decode" =>
     let (_, t) ← getTy req
     let bs ← ofHex (← req.getObjValAs? String "bytes")
-    pure (okJson (valToJson t (Spec.decode t bs)))
+    match Spec.decode t bs with
+    | some v => pure (okJson (valToJson t v))
+    | none => pure (Json.mkObj [("exc", "short")])
   | "spec.project" =>
     let (_, t) ← getTy req
     let (t20, _) ← getTy req "ty_new"
